@@ -23,6 +23,7 @@ THEOREMS = [
     "Mesa.Collect.C12_agenttype_frame_is_records",
     "Mesa.Collect.C12_deepcopy_makes_stored_values_immune",
     "Mesa.Collect.C12_reorder_only_permutes_agents",
+    "Mesa.Collect.C12_shuffle_any_order",
     "Mesa.Collect.C12_creation_order_without_reorder",
     "Mesa.Collect.C18_collect_tablerow_reject_unchanged",
     "Mesa.Collect.C18_collect_tablerow_rejects_exactly",
@@ -33,7 +34,7 @@ TRUSTED = [
     "pandas: DataFrame(dict of equal-length lists) and DataFrame.from_records(list of tuples, columns, index) only re-index what they are given (frames are compared as index tuples / column names / values on every run)",
     "copy.deepcopy detaches a stored model-level value from the live object (exercised: list attributes are mutated in place after every collect)",
     "reporters are functions of the snapshot (model/agent attributes, steps, registry) that return a value or raise; reporters with side effects (the trial call of the validation runs a plain function twice at the first collect) or reading global state are not modelled",
-    "Model.agents / agents_by_type keep registration order (C03) until reordered; model.agents is reordered in place only through AgentSet.shuffle(inplace=True) (the random source replaced by one drawing the reversal / the rotation by one) and AgentSet.sort(key, ascending, inplace=True) (by unique_id, by an int-valued key); agents_by_type[T] is never reordered, select(inplace=True) on model.agents is not generated",
+    "Model.agents / agents_by_type keep registration order (C03) until reordered; model.agents is reordered in place only through AgentSet.shuffle(inplace=True) (the random source replaced by one drawing a given permutation of the positions - any one -, the reversal or the rotation by one) and AgentSet.sort(key, ascending, inplace=True) (by unique_id, by an int-valued key); agents_by_type[T] is never reordered, select(inplace=True) on model.agents is not generated",
     "names (reporters, attributes, tables, columns, classes) are small naturals in dictionary order; key collisions between dictionaries are not generated",
 ]
 ASSUMPTIONS = [
@@ -47,7 +48,7 @@ RULE = ("random histories over a random class hierarchy (1-4 classes, random par
         "call of a plain function; later: the collect ends in the model / agent / agent-type phase and leaves a partial collect); "
         "6-30 ops from {create, remove (incl. twice), step, model attribute set / in-place list append / delete, agent attribute set / delete, "
         "collect (0-n per step, also before any agent exists), add_table_row (complete, partial, ignore_missing, unknown table)}; in 30% of the scenarios "
-        "model.agents is reordered in place between collects (shuffle(inplace=True) drawing a reversal / rotation, sort(inplace=True) by unique_id or an "
+        "model.agents is reordered in place between collects (shuffle(inplace=True) drawing a random permutation of the positions - 1 in 12 deliberately not a permutation: no draw -, a reversal or a rotation, sort(inplace=True) by unique_id or an "
         "int key, ascending / descending); with observations "
         "(model_vars, the four DataFrames) interleaved and at the end; non-trivial = at least one collect stored something and a frame with >= 1 row "
         "was observed; distinct = distinct op-line sequences (sha1)")
